@@ -155,7 +155,12 @@ class _ExpressionConverter:
             ) = stack.pop()
 
             if isinstance(current_formula, NumericValue):
-                formula_value = Fraction(current_formula.value)
+                value = current_formula.value
+                # the pddl package hands decimals over as floats: go through the
+                # shortest decimal representation, not the binary expansion
+                formula_value = (
+                    Fraction(str(value)) if isinstance(value, float) else Fraction(value)
+                )
                 if formula_value.denominator == 1:
                     result_stack.append(em.Int(formula_value.numerator))
                 else:
